@@ -26,13 +26,17 @@ def space(tier):
 def layouts(tier):
     q = tier == 'quick'
     out = []
-    for d in ([2, 3] if q else [2, 3, 4]):
+    for d in ([2, 3] if q else [2, 3, 4, 5]):
         if d < 4:
-            for sites in itertools.product([(2, 1), (3, 1), (2, 2)] if q else [(2, 1), (3, 1), (2, 2), (3, 2), (1, 3)], repeat=d):
+            for sites in itertools.product([(2, 1), (3, 1), (2, 2)] if q else [(2, 1), (3, 1), (4, 1), (2, 2), (3, 2), (1, 3), (3, 3)], repeat=d):
                 out.append([list(s) for s in sites])
-        else:
+        elif d == 4:
             for sites in itertools.product([(2, 1), (3, 1), (2, 2)], repeat=d):
                 if sum(1 for s in sites if s == (2, 2)) <= 1:
+                    out.append([list(s) for s in sites])
+        else:
+            for sites in itertools.product([(2, 1), (3, 1)], repeat=d):
+                if sum(1 for s in sites if s == (3, 1)) <= 2:
                     out.append([list(s) for s in sites])
     return out
 
